@@ -606,6 +606,9 @@ func (k *Key) UnmarshalCBOR(data []byte) error {
 	if err != nil {
 		return fmt.Errorf("key_ops: %w", err)
 	}
+	if _, present := tmp[keyLabelKeyOps]; present && len(key_ops) == 0 {
+		return errors.New("key_ops: empty array")
+	}
 	if len(key_ops) > 0 {
 		k.Ops = make([]KeyOp, len(key_ops))
 		for i, op := range key_ops {
